@@ -1,5 +1,6 @@
 import Hv.Driver.Core
 import Hv.Vdi
+import Hv.Footprint
 namespace Hv.Driver
 open Hv
 
@@ -35,6 +36,16 @@ def vdiCmd (st : St) : List String → String
       fmtBytes (slice (Vdi.guest v pc) o (min l (v.size - o)))
     | .error e, _, _ => s!"err {e}"
     | _, _, _ => "bad-args"
+  | ["vdi.footprint", id, pid, off, len] =>
+    -- C13: the file ranges `_read(off, len)` may look at (HvProofs/Footprint.lean: vdi_read_footprint)
+    match vdiOpen st id pid, off.toNat?, len.toNat? with
+    | .ok v, some o, some l => Footprint.render (Footprint.vdi v o l)
+    | .error e, _, _ => s!"err {e}"
+    | _, _, _ => "bad-args"
+  | ["vdi.openfp", id] =>
+    match st.file? id with
+    | some fh => Footprint.render (Footprint.vdiOpen fh)
+    | none => "bad-args"
   | "vdi.stream" :: id :: pid :: align :: ops =>
     match vdiOpen st id pid, align.toNat? with
     | .ok v, some a => runStream (Vdi.read v) v.size a ops
